@@ -901,6 +901,8 @@ class CallMixin:
         if isinstance(d, VOpaque):
             return self.registry.opaque_iter(self, d)
         if isinstance(d, VNone):
+            if self.spec_mode:
+                return VList(items=[])  # partial spec term under a (necessarily false) guard
             self.raise_builtin("TypeError")
         raise Unsupported(f"iteration over {d!r}")
 
@@ -938,6 +940,26 @@ class CallMixin:
         return VList(n, s.key.rebuild([order]))
 
     # ------------------------------------------------------------------ quantifiers
+    def quantified_items(self, which, comp, env, g, items):
+        terms = []
+        for x in items:
+            e2 = Env(env.module, dict(env.locals), env.closure, cls=env.cls)
+            self.assign(g.target, x, e2)
+            conds = [self.truthy(self.ev(c, e2)) for c in g.ifs]
+            saved = self.spec_mode
+            if not self.spec_mode:
+                # code mode over a concrete list: evaluate eagerly but without forking
+                self.spec_mode = True
+            try:
+                body = self.truthy(self.ev(comp.elt, e2))
+            finally:
+                self.spec_mode = saved
+            if which == "all":
+                terms.append(z3.Implies(z3.And(conds + [z3.BoolVal(True)]), body))
+            else:
+                terms.append(z3.And(conds + [body]))
+        return VBool(z3.And(terms + [z3.BoolVal(True)]) if which == "all" else z3.Or(terms + [z3.BoolVal(False)]))
+
     def quantified(self, which, comp, env):
         """any(...)/all(...) over a generator expression."""
         if len(comp.generators) != 1:
@@ -945,7 +967,13 @@ class CallMixin:
         g = comp.generators[0]
         src = self.ev(g.iter, env)
         d = self.deref(src)
+        if isinstance(d, VOpt) and self.spec_mode:
+            # Optional sequence under a guard that excludes None (partial spec term)
+            d = self.deref(d.val)
+            src = d
         if isinstance(d, (VTuple,)) or (isinstance(d, VList) and d.items is not None):
+            return self.quantified_items(which, comp, env, g, d.items)
+        if False:
             items = d.items
             terms = []
             for x in items:
@@ -966,6 +994,9 @@ class CallMixin:
                     terms.append(z3.And(conds + [body]))
             return VBool(z3.And(terms + [z3.BoolVal(True)]) if which == "all" else z3.Or(terms + [z3.BoolVal(False)]))
         seq = self.iter_seq(src)
+        if seq.items is not None:
+            # a sequence of known shape reached through an Optional / a container cell: unroll it
+            return self.quantified_items(which, comp, env, g, seq.items)
         j = z3.FreshConst(INT, "q")
         e2 = Env(env.module, dict(env.locals), env.closure, cls=env.cls)
         self.assign(g.target, seq.at(j), e2)
